@@ -77,7 +77,8 @@ def _dense(t_list, X):
 
     arg = DenseArgvals({f"input_dim_{k}": np.array(fl(t)) for k, t in enumerate(t_list)})
     X = np.asarray(X)
-    return DenseFunctionalData(arg, DenseValues(X if X.dtype.kind == "i" else np.array(X, dtype=float)))
+    # an int64 / float64 array is handed over AS IT IS (no copy: its memory layout is part of the input)
+    return DenseFunctionalData(arg, DenseValues(X if X.dtype in (np.int64, np.float64) else np.array(X, dtype=float)))
 
 
 def _arr(comp):
@@ -86,9 +87,7 @@ def _arr(comp):
         A = np.array([[int(F(x)) for x in r] for r in comp["X"]], dtype=np.int64)
     else:
         A = np.array(fl(_Fm(comp["X"])))
-    if comp.get("layout") == "F":
-        A = np.asfortranarray(A)  # same numbers, column-major memory (e.g. a transposed view handed in by the caller)
-    return A
+    return A  # the memory layout is applied by `_build` (after the reshape of 2-D data)
 
 
 def _irregular(pts, vals, labels=None, vorder=None):
@@ -99,13 +98,14 @@ def _irregular(pts, vals, labels=None, vorder=None):
     from FDApy.representation.values import IrregularValues
 
     labels = list(range(len(pts))) if labels is None else labels
-    arg = IrregularArgvals({l: DenseArgvals({"input_dim_0": np.array(p, dtype=float)}) for l, p in zip(labels, pts)})
+    keep = lambda a: a if isinstance(a, np.ndarray) and a.dtype == np.float64 else np.array(a, dtype=float)  # noqa: E731
+    arg = IrregularArgvals({l: DenseArgvals({"input_dim_0": keep(p)}) for l, p in zip(labels, pts)})
     pairs = list(zip(labels, vals))
     if vorder == "reversed":
         pairs = pairs[::-1]
     elif vorder == "rotated":
         pairs = pairs[1:] + pairs[:1]
-    val = IrregularValues({l: np.array(v, dtype=float) for l, v in pairs})
+    val = IrregularValues({l: keep(v) for l, v in pairs})
     return IrregularFunctionalData(arg, val)
 
 
@@ -362,11 +362,11 @@ def _dense_comp(rng: Rng, N, two_d=False, uniform=None):
         m1, m2 = rng.randint(2 if not uniform else 3, 5), rng.randint(2 if not uniform else 3, 5)
         X, ck = _curves(rng, N, m1 * m2)
         X, integer = _maybe_int(rng, _affine(rng, X))
-        return dict(type="dense2", t1=[rs(x) for x in _grid(rng, m1, uniform)], t2=[rs(x) for x in _grid(rng, m2, uniform)], X=_S(X), ck=ck, int=integer)
+        return dict(type="dense2", t1=[rs(x) for x in _grid(rng, m1, uniform)], t2=[rs(x) for x in _grid(rng, m2, uniform)], X=_S(X), ck=ck, int=integer, layout=rng.choice(["C", "C", "F", "T", "strided", "neg"]))
     m = rng.randint(3, 10)
     X, ck = _curves(rng, N, m)
     X, integer = _maybe_int(rng, _affine(rng, X))
-    return dict(type="dense1", t=[rs(x) for x in _grid(rng, m, uniform)], X=_S(X), ck=ck, int=integer, layout=rng.choice(["C", "C", "F"]))
+    return dict(type="dense1", t=[rs(x) for x in _grid(rng, m, uniform)], X=_S(X), ck=ck, int=integer, layout=rng.choice(["C", "C", "F", "T", "strided", "neg"]))
 
 
 def _irr_comp(rng: Rng, N, enc=None, lp_only=False):
@@ -470,6 +470,23 @@ def gen_cases(rng: Rng, tier):
             comps = [dict(type="dense1", t=[rs(x) for x in _grid(rng, m)], X=_S(_dynrange(rng, N, m)), ck="dynrange", int=False, layout="C"),
                      _dense_comp(rng, N)]
             yield dict(kind="multi", mix="dd", comps=comps, **opts, ck="dynrange", uw_form="float-array", uw=["0", "4"])
+    # structured, in every run: MEMORY LAYOUT of the values (column-major, transposed table, strided slice of a finer table, negative strides):
+    # dense 1-D / 2-D and every observation of irregular data
+    for lay in ("F", "T", "strided", "neg"):
+        opts = _opts(rng)
+        opts["integ"] = "trapz"
+        N = rng.randint(3, 6)
+        c1 = _dense_comp(rng, N)
+        c1["layout"] = lay
+        X2, _ = _curves(rng, N, len(c1["t"]))
+        yield dict(kind="dense1", **c1, **opts, X2=_S(X2))
+        c2 = _dense_comp(rng, N, True)
+        c2["layout"] = lay
+        yield dict(kind="dense2", **c2, **_opts(rng) | dict(integ="trapz"))
+        if lay in ("strided", "neg"):
+            ci = _irr_comp(rng, N)
+            ci["layout"] = lay
+            yield dict(kind="irreg", **ci, **opts, sub=False)
     # structured, in every run: SIZE THRESHOLDS of the union grid of irregular data (curves with their own sampling points):
     # 300, 511, 512, 513, 700, 1400 union points, few curves, explicit smoothing options
     for S in (300, 511, 512, 513, 700, 1400):
@@ -560,11 +577,13 @@ def witness_cases():
 
 def _build(comp):
     t = comp["type"]
+    from c09 import _layout
+
     if t == "dense1":
-        return _dense([_Fv(comp["t"])], _arr(comp))
+        return _dense([_Fv(comp["t"])], _layout(_arr(comp), comp.get("layout")))
     if t == "dense2":
         t1, t2 = _Fv(comp["t1"]), _Fv(comp["t2"])
-        return _dense([t1, t2], _arr(comp).reshape(-1, len(t1), len(t2)))
+        return _dense([t1, t2], _layout(_arr(comp).reshape(-1, len(t1), len(t2)), comp.get("layout")))
     if t == "basis1":
         return _basis([_Fv(comp["t"])], None if comp.get("family") else fl(_Fm(comp["B"])), fl(_Fm(comp["C"])), comp.get("family"), comp.get("isn"))
     if t == "basis2":
@@ -573,6 +592,10 @@ def _build(comp):
     if t == "irreg":
         pts = [[float(F(x)) for x in o["t"]] for o in comp["obs"]]
         vals = [[float("nan") if y == "nan" else float(F(y)) for y in o["y"]] for o in comp["obs"]]
+        lay = comp.get("layout")
+        if lay:  # every observation's samples (and points) as a strided / reversed view
+            pts = [_layout(np.array(p, dtype=float), lay) for p in pts]
+            vals = [_layout(np.array(v, dtype=float), lay) for v in vals]
         return _irregular(pts, vals, vorder=comp.get("vorder"))
     raise ValueError(t)
 
@@ -686,6 +709,10 @@ def _impl_grid(case, build, out):
 
     out["history"] = _call(history)
     out["grid"] = _call(lambda: _grid_vals(build()).tolist())
+    if case["type"] == "dense1" and "X2" in case and (case.get("sized") or case.get("ck") == "dynrange" or case.get("layout") not in (None, "C")
+                                                      or int(common.digest(case), 16) % 3 == 0):
+        # on the structured dense cases of every run and on a third of the random ones (48 extra operation calls per case)
+        out["reassigned"] = _call(lambda: _impl_reassigned(case, build))
     if case["type"] == "dense1" and not case.get("sized"):
         # the operations on DERIVED objects (results of other operations) against freshly built twins with the same values
         deriv = {"center()": lambda fd: fd.center(), "center(method_smoothing='LP')": lambda fd: fd.center(method_smoothing="LP", bandwidth=0.5),
@@ -710,6 +737,56 @@ def _impl_grid(case, build, out):
         "rescale(weights=w)": lambda fd: (lambda r: [_grid_vals(r[0]).tolist(), float(r[1])])(fd.rescale(weights=w, **opts)),
         "norm": lambda fd: np.asarray(fd.norm(**opts), dtype=float).tolist(),
     }, out)
+
+
+def _impl_reassigned(case, build):
+    """Objects whose attributes were reassigned through the public setters BEFORE the operation: a new grid of the same size with another
+    spacing, new values, a user-supplied argvals_stand followed by a new grid.  Every result is given next to that of a freshly built
+    object with the final grid and values; the standardised grid is reported for the independent check against (t - min)/(max - min)."""
+    from FDApy.representation.argvals import DenseArgvals
+    from FDApy.representation.functional_data import MultivariateFunctionalData
+    from FDApy.representation.values import DenseValues
+
+    t = _Fv(case["t"])
+    m = len(t)
+    span = t[-1] - t[0]
+    t2 = [float(t[0] + span * Fraction(j * j, (m - 1) ** 2)) for j in range(m)]  # same size, same ends, another spacing
+    t_mid = [float(t[0] + span * Fraction(j * j * j, (m - 1) ** 3)) for j in range(m)]
+    X = np.array(_grid_vals(build()))
+    X2 = np.array(fl(_Fm(case["X2"])))
+    integ = case["integ"]
+    ops = {}
+    for st in (True, False):
+        o = dict(use_argvals_stand=st, method_integration=integ)
+        ops[f"norm(stand={st})"] = lambda f, o=o: np.asarray(f.norm(**o), dtype=float).tolist()
+        ops[f"normalize.norm(stand={st})"] = lambda f, o=o: np.asarray(f.normalize(**o).norm(**o), dtype=float).tolist()
+        ops[f"rescale weight(stand={st})"] = lambda f, o=o: float(f.rescale(**o)[1])
+        ops[f"rescale re-estimate(stand={st})"] = lambda f, o=o: float(f.rescale(**o)[0].rescale(**o)[1])
+    res = {"t2": t2}
+    for seq in ("argvals", "values+argvals", "argvals+argvals_stand+argvals"):
+        fd = build()
+        vals = X
+        if seq.startswith("values"):
+            fd.values = DenseValues(X2.copy())
+            vals = X2
+        if "argvals_stand" in seq:
+            fd.argvals = DenseArgvals({"input_dim_0": np.array(t_mid)})
+            fd.argvals_stand = DenseArgvals({"input_dim_0": np.linspace(0.0, 1.0, m) ** 3})
+        fd.argvals = DenseArgvals({"input_dim_0": np.array(t2)})
+        from c09 import _layout
+
+        twin = _dense([t2], _layout(vals.copy(), case.get("layout")))  # same numbers, same memory layout
+        r = {nm: [_call(lambda: op(fd)), _call(lambda: op(twin))] for nm, op in ops.items()}
+        r["stand"] = np.asarray(fd.argvals_stand["input_dim_0"], dtype=float).tolist()
+        r["vals"] = vals.tolist()
+        if seq == "argvals":
+            o = dict(use_argvals_stand=True, method_integration=integ)
+            other = lambda: _dense([_Fv(case["t"])], X.copy())  # noqa: E731
+            r["multivariate rescale weights(stand=True)"] = [
+                _call(lambda: np.asarray(MultivariateFunctionalData([fd, other()]).rescale(**o)[1], dtype=float).tolist()),
+                _call(lambda: np.asarray(MultivariateFunctionalData([twin, other()]).rescale(**o)[1], dtype=float).tolist())]
+        res[seq] = r
+    return res
 
 
 def _impl_irreg(case, out, comp=None):
@@ -1682,12 +1759,52 @@ def oracle(case, impl):
         _oracle_grid(case, impl, bad)
         from c09 import _same
 
+        ra = impl.get("reassigned")
+        if ra is not None and not _err(ra):
+            t2 = [F(x) for x in ra["t2"]]
+            for seq, r in ra.items():
+                if seq == "t2":
+                    continue
+                exp_stand = [float((x - t2[0]) / (t2[-1] - t2[0])) for x in t2]
+                if not _same(r["stand"], exp_stand, 1.0):
+                    bad("argvals_stand_current", f"after assigning through the setters ({seq}) argvals_stand is {str(r['stand'])[:70]} but (t - min)/(max - min) of the CURRENT "
+                        f"argvals is {str(exp_stand)[:70]}", "DenseFunctionalData.argvals", ["reassigned:" + seq])
+                Xr = np.array(r["vals"], dtype=float)
+                sdm = float(np.sqrt(np.mean(Xr.var(axis=0)))) if Xr.size else 0.0
+                cond_r = float(np.abs(Xr).max()) / sdm if sdm > 0 else 1.0  # offset against spread: two summation orders may differ by eps * cond
+                for nm, pair in r.items():
+                    if nm in ("stand", "vals"):
+                        continue
+                    a, b = pair
+                    if _all_finite(b) and not _same(a, b, rtol=1e-12 + 1e-13 * cond_r):
+                        bad("stale_state", f"{nm} on an object whose attributes were reassigned through the setters ({seq}) gives {str(a)[:70]}, a freshly built object "
+                            f"with the same grid and values {str(b)[:70]}", "DenseFunctionalData." + nm.split("(")[0].split(".")[0].split(" ")[0], ["reassigned:" + seq])
+                        break
+                # independent of any FDApy object: weight = integral of the pointwise variance on the standardised CURRENT grid
+                if case["integ"] == "trapz":
+                    Xv = [[F(x) for x in row] for row in r["vals"]]
+                    Nn = len(Xv)
+                    var = [sum((row[j] - sum(q[j] for q in Xv) / Nn) ** 2 for row in Xv) / Nn for j in range(len(t2))]
+                    wx = _trapz_exact([(x - t2[0]) / (t2[-1] - t2[0]) for x in t2], var)
+                    wa = r["rescale weight(stand=True)"][0]
+                    if wx > 0 and not _err(wa) and not abs(wa - float(wx)) <= 1e-9 * float(wx) * (1 + 1e-3 * (max(abs(x) for row in Xv for x in row) ** 2) / float(wx)):
+                        bad("rescale_weight_value", f"after reassigning ({seq}) the weight with use_argvals_stand=True is {wa}, the integrated pointwise variance on the "
+                            f"standardised current grid is {float(wx)}", "DenseFunctionalData.rescale", ["reassigned:" + seq])
+                    na = r["normalize.norm(stand=True)"][0]
+                    nb = r["norm(stand=True)"][1]
+                    if not _err(na) and not _err(nb) and any(b > 0 and not abs(a - 1) <= 1e-8 for a, b in zip(na, nb)):
+                        bad("normalize_unit", f"after reassigning ({seq}) the norms after normalize(use_argvals_stand=True) are {str(na)[:80]}",
+                            "DenseFunctionalData.normalize", ["reassigned:" + seq])
+        elif ra is not None:
+            bad("runs", f"operations after reassigning attributes raised {ra['error']}: {ra.get('msg')}", "DenseFunctionalData.argvals", ["reassigned"])
+        bg_, dv_ = _scales(_exact_grid(case))
+        cond = bg_ / (dv_ + 1e-300) if dv_ > 0 else 1.0
         for dn, r in (impl.get("derived") or {}).items():
             if _err(r):
                 continue
             for nm, (a, b, amp) in r.items():
                 fin = _all_finite(b)
-                if fin and not _same(a, b, amp * amp if nm == "rescale" else amp):
+                if fin and not _same(a, b, amp * amp if nm == "rescale" else amp, rtol=1e-12 + 1e-13 * cond):
                     bad("derived_object", f"{nm} of the object returned by {dn} gives {str(a)[:90]}, a freshly built object with the same values {str(b)[:90]}",
                         "DenseFunctionalData." + nm, ["derived:" + dn])
                     break
@@ -1729,8 +1846,9 @@ def classify(case, impl):
             break
     if case.get("int") or any(c.get("int") for c in case.get("comps", [])):
         tags.append("dtype:int64")
-    if case.get("layout") == "F" or any(c.get("layout") == "F" for c in case.get("comps", [])):
-        tags.append("layout:fortran")
+    for c in [case] + list(case.get("comps", [])):
+        if c.get("layout") not in (None, "C"):
+            tags.append("layout:" + c["layout"])
     if case.get("sized"):
         tags.append("size-threshold:" + str(len(case["X"])))
     if case["kind"].startswith("basis"):
